@@ -296,8 +296,15 @@ func genCfg(r *rand.Rand, bbOnly bool) HCfg {
 		c.Limit = "pot"
 	}
 	c.HoleN, c.ReqHole = 2, 0
-	if r.Intn(5) == 0 {
+	switch k := r.Intn(20); {
+	case k < 4:
 		c.HoleN, c.ReqHole = 4, 2
+	case k < 6:
+		c.HoleN, c.ReqHole = 2, 2 // every hole card is required
+	case k == 6:
+		c.HoleN, c.ReqHole = 3, 2
+	case k == 7:
+		c.HoleN, c.ReqHole = 4, 0
 	}
 	c.DeckKind, c.Ranking = "std", "standard"
 	if r.Intn(4) == 0 {
